@@ -133,6 +133,9 @@ def remove_actions(parser, types):
         for action in rm_actions:
             actions.remove(action)
 
+    for option_string, action in list(parser._option_string_actions.items()):
+        if isinstance(action, types):
+            del parser._option_string_actions[option_string]  # else adding the option again is a conflict
     remove(parser._actions)
     for action_group in parser._action_groups:
         remove(action_group._group_actions)
